@@ -94,7 +94,8 @@ ARG_TYPES = {
     "struct": ("struct Pt", "struct"), "slice": ("struct CSliceRef_u8", "slice"), "ptr": ("const uint32_t *", "ptr"),
     "cb": ("struct Callback_c_void__Pt", "cb"),
 }
-RET_TYPES = {"void": "void", "u32": "uint32_t", "u64": "uint64_t", "bool": "bool", "struct": "struct Pt", "ptr": "const uint32_t *"}
+RET_TYPES = {"void": "void", "u32": "uint32_t", "u64": "uint64_t", "bool": "bool", "struct": "struct Pt", "ptr": "const uint32_t *",
+             "vptr": "void *"}
 
 
 def join_generic(inner, ctx):
@@ -111,8 +112,13 @@ def models(tier, seed):
     core = [
         {"id": "obj_box_arc", "prefix": None,
          "traits": [{"name": "Foo", "methods": [M("get", "ref", (), "u32"), M("set", "mut", ("u32",)), M("mix", "mut", ("u8", "u64", "struct"), "u64"),
-                                                 M("finish", "own", (), "u32"), M("cancel", "own", ("u32",), "void")]}],
+                                                 M("finish", "own", (), "u32"), M("cancel", "own", ("u32",), "void"),
+                                                 M("raw", "ref", ("u32",), "vptr"), M("leak", "own", (), "vptr")]}],
          "objects": [("Foo", "Box", "Arc"), ("Foo", "Box", "")], "groups": []},
+        {"id": "default_config", "prefix": None, "default": ("Box", "Arc"),
+         "traits": [{"name": "Res", "methods": [M("val", "ref", (), "u32"), M("take", "own", (), "u32")]}],
+         "objects": [("Res", "Box", "Arc"), ("Res", "Box", ""), ("Res", "Mut", "Arc")],
+         "groups": [("Bag", ["Res"], "Box", "Arc"), ("Bag", ["Res"], "Box", "")]},
         {"id": "same_signature_clash", "prefix": None,
          "traits": [{"name": "Rr", "methods": [M("get", "ref", (), "u32")]},
                     {"name": "Ww", "methods": [M("put", "mut", ("u32",)), M("get", "ref", (), "u32"), M("close", "own", (), "void")]}],
@@ -274,6 +280,9 @@ def run_tool(binp, raw, model, mdir):
         lines = []
         if model.get("prefix"):
             lines.append('function_prefix = "%s"' % model["prefix"])
+        if model.get("default"):
+            lines.append('default_container = "%s"' % model["default"][0])
+            lines.append('default_context = "%s"' % model["default"][1])
         open(cfg, "w").write("\n".join(lines) + "\n")
         pre = ["-c", cfg]
     rc, out = sh([binp] + pre + ["--", "-l", "c", "-o", outp, "some_crate"], env={"PATH": shim_dir + ":" + os.environ.get("PATH", "")})
@@ -363,8 +372,25 @@ unsigned long long nondet_ull(void);
 #endif
 static int ctx_live, ctx_live_during, box_drops, bad_release;
 static const void *the_ctx, *the_inst;
-static const void *m_clone(const void *p) { if (p != the_ctx) bad_release = 1; ctx_live++; return p; }
-static void m_cdrop(const void *p) { if (p != the_ctx) bad_release = 1; ctx_live--; }
+/* the mock arc hands out a DISTINCT handle per clone (the ABI permits it): releases are counted per handle */
+static char clone_cells[8]; static int n_clones; static int orig_releases; static int clone_releases[8];
+static const void *m_clone(const void *p) {
+    if (p != the_ctx) bad_release = 1;
+    ctx_live++;
+    if (n_clones >= 8) { bad_release = 1; return p; }
+    return &clone_cells[n_clones++];
+}
+static void m_cdrop(const void *p) {
+    ctx_live--;
+    if (p == the_ctx) { orig_releases++; return; }
+    for (int i = 0; i < 8; i++) if (p == &clone_cells[i]) { if (i >= n_clones) bad_release = 1; clone_releases[i]++; return; }
+    bad_release = 1;
+}
+static int handles_balanced(int expect_orig) {
+    if (orig_releases != expect_orig) return 0;
+    for (int i = 0; i < 8; i++) if (clone_releases[i] != (i < n_clones ? 1 : 0)) return 0;
+    return 1;
+}
 static void m_bdrop(void *p) { if (p != the_inst) bad_release = 1; box_drops++; }
 static int called[64];
 static const void *seen_cont;
@@ -382,7 +408,7 @@ def c_eq(kind, a, b):
 
 
 def nd_decl(tykey, name):
-    cty, kind = ARG_TYPES[tykey] if tykey in ARG_TYPES else (RET_TYPES[tykey], "scalar" if tykey not in ("struct", "ptr") else tykey)
+    cty, kind = ARG_TYPES[tykey] if tykey in ARG_TYPES else (RET_TYPES[tykey], "scalar" if tykey not in ("struct", "ptr", "vptr") else tykey)
     if kind == "struct":
         return "struct Pt %s; { ND(uint8_t, %s_a); ND(uint32_t, %s_b); %s.a = %s_a; %s.b = %s_b; }" % (name, name, name, name, name, name, name)
     if kind == "slice":
@@ -390,6 +416,8 @@ def nd_decl(tykey, name):
             name, name, name, name, name, name, name)
     if kind == "cb":
         return "struct Callback_c_void__Pt %s; { NDPTR(void *, %s_c); %s.context = %s_c; %s.func = 0; }" % (name, name, name, name, name)
+    if tykey == "vptr":
+        return "NDPTR(void *, %s);" % name
     if kind == "ptr":
         return "NDPTR(const uint32_t *, %s);" % name
     return "ND(%s, %s);" % (cty, name)
@@ -447,9 +475,12 @@ def gen_harness(model, types, header_path, ws):
         else:
             mk += "    o->container.instance = inst_%d;\n" % ti
         if ty["ctx"] == "Arc":
-            mk += "    NDPTR(const void *, ctxp_%d); ASSUME(ctxp_%d != 0); the_ctx = ctxp_%d;\n" % (ti, ti, ti)
+            # a concrete, distinct address for the object's own context handle (a symbolic pointer could alias the
+            # cells the mock arc hands out for clones)
+            mk += "    static char orig_ctx_cell_%d; const void *ctxp_%d = &orig_ctx_cell_%d; the_ctx = ctxp_%d;\n" % (ti, ti, ti, ti)
             mk += "    o->container.context.instance = ctxp_%d; o->container.context.clone_fn = m_clone; o->container.context.drop_fn = m_cdrop;\n" % ti
         mk += "    ctx_live = %d; ctx_live_during = -1; box_drops = 0; bad_release = 0; seen_cont = 0;\n" % (1 if ty["ctx"] == "Arc" else 0)
+        mk += "    n_clones = 0; orig_releases = 0; for (int i = 0; i < 8; i++) clone_releases[i] = 0;\n"
         mk += "    for (int i = 0; i < 64; i++) called[i] = 0;\n}\n"
         o.append(mk)
         n_slots_total = None
@@ -485,6 +516,7 @@ def gen_harness(model, types, header_path, ws):
                         b += "    CHECK(seen_byval_%d.context.instance == o.container.context.instance, \"%s: container passed by value unchanged (context)\");\n" % (sid, desc)
                         b += "    CHECK(ctx_live_during >= 2, \"%s: a context clone is alive during the consuming call\");\n" % desc
                         b += "    CHECK(ctx_live == 0, \"%s: context released exactly once\");\n" % desc
+                        b += "    CHECK(handles_balanced(1), \"%s: every context handle (the object's and each clone's) released exactly once\");\n" % desc
                     if ty["inner"] == "Box":
                         b += "    CHECK(box_drops == 1, \"%s: instance released exactly once\");\n" % desc
                     b += "    CHECK(!bad_release, \"%s: releases use the object's own pointers\");\n" % desc
